@@ -239,11 +239,16 @@ class Vector():
 			return hash(x)
 
 		if isinstance(x, (set, list, tuple)):
-			items = _safe_sortable_list(list(x)) if isinstance(x, set) else x
-			# seed with the container's kind and length: 0, [0], (0,), (0, 0), {0} and () are different values
-			h = (1 if isinstance(x, set) else 2 if isinstance(x, tuple) else 3) + 3 * len(items)
-			for elem in items:
-				h = (h * B + Vector._hash_element(elem)) % P
+			hashes = [Vector._hash_element(elem) for elem in x]
+			if isinstance(x, set):
+				# a set has no order of its own: fold the item hashes in ascending order, which depends on the
+				# members only (sorting the members themselves is not canonical for partially ordered items)
+				hashes.sort()
+			# seed with the container's kind and length, spread over the whole range: 0, [0], (0,), (0, 0), {0},
+			# () and [] are different values, and an empty container must not hash like a small int
+			h = ((1 if isinstance(x, set) else 2 if isinstance(x, tuple) else 3) + 3 * len(hashes)) * 0x9E3779B97F4A7C15 % P
+			for item_hash in hashes:
+				h = (h * B + item_hash) % P
 			return h
 
 		if _is_hashable(x):
